@@ -99,6 +99,13 @@ class Effects:
                 return ('call', t[1], args, t[3] if len(t) > 3 else ())
             m = {i + 1: a for i, a in enumerate(args)}
             return self.inline(subst(g, m), depth + 1)
+        if t[0] == 'sym' and isinstance(t[1], str) and "::promoted[" in t[1]:
+            pb = self.prog.by_id.get(t[1])
+            if pb is not None:
+                rts = pb.return_terms()
+                if len(rts) == 1:
+                    return self.inline(('deref', deep_strip(rts[0][1])) if False else deep_strip(rts[0][1]), depth + 1)
+            return t
         if t[0] in LEAF_TAGS:
             return t
         r = map_children(t, lambda x: self.inline(x, depth + 1))
